@@ -12,6 +12,8 @@ accepted deletions, exchange template untouched.
 Further dimensions: displacement moves with a coarser grouping (pairs of particles under one label), moves built
 from one and the same label array object, insertions pre-selected with another number of atoms than the template; a
 new particle's label must not be one that atoms present before the trial already carry.
+A quarter of the simulations start from a recorded count of the user's choosing (unrelated to the labels), all with
+scripted criteria: the count follows initial + insertions - deletions also below zero.
 """
 from __future__ import annotations
 
@@ -35,7 +37,7 @@ ASSUMPTIONS = [
     "label uniqueness across particles is judged only when no default label is configured (a configured label is shared by construction)",
     "when a non-negative default label is configured, all inserted particles share it and form one deletable group by the package's own definition; the particle-number clause is then not judged",
 ]
-REQUIRED = {"accepted_insertions_of_another_size": 20, "trials": 3000, "accepted_insertions": 300, "accepted_deletions": 200, "rejected_exchanges": 200, "label_arrays_checked": 5000, "default_label_insertions": 50, "template_checks": 1000, "composite_table_trials": 300}
+REQUIRED = {"simulations_with_initial_count_unrelated_to_the_labels": 20, "recorded_count_below_zero_observed": 5, "accepted_insertions_of_another_size": 20, "trials": 3000, "accepted_insertions": 300, "accepted_deletions": 200, "rejected_exchanges": 200, "label_arrays_checked": 5000, "default_label_insertions": 50, "template_checks": 1000, "composite_table_trials": 300}
 SHARD_TIMEOUT = {"quick": 900, "thorough": 3000}
 
 
@@ -84,7 +86,7 @@ def run_one(rec: Rec, spec, steps, tag):
     tsnap = snap_atoms(template)
     labels0 = np.asarray(info["labels"])
     part = {i: ("init", int(labels0[i])) if labels0[i] >= 0 else ("fw", i) for i in range(n0)}  # uid -> particle
-    st = {"next_uid": n0, "n_ins": 0, "n_del": 0, "N0": int(mc.number_of_exchange_particles), "after_exchange": False}
+    st = {"next_uid": n0, "n_ins": 0, "n_del": 0, "N0": int(spec["nexch"]) if "nexch" in spec else int(mc.number_of_exchange_particles), "after_exchange": False}
     moves = []
     seen = set()
     for name, storage in mc.moves.items():
@@ -248,6 +250,8 @@ def run_one(rec: Rec, spec, steps, tag):
                     krec.viol("C05/particle-split-labels", f"atoms of particle {p} carry different labels {sorted(ls)} in move '{name}'", w2)
         # ---- particle number
         want = st["N0"] + st["n_ins"] - st["n_del"]
+        if want < 0:
+            rec.count("recorded_count_below_zero_observed")
         shared_label = any(v is not None and v >= 0 for v in dl.values())
         if shared_label:
             # a configured non-negative label is shared by every inserted particle: by the package's own
@@ -314,5 +318,15 @@ def run(spec):
             s["share_label_arrays"] = True  # the moves of this simulation are built from one label array object
         s["T"] = 3000.0
         s["mu"] = float(rng.choice([0.0, 0.3, -0.2]))
+        if i % 4 == 3:
+            # the recorded number starts from a value of the user's choosing (0 by default in the package, whatever the
+            # labels say): the clause is about initial value + insertions - deletions, wherever that leads
+            s["nexch"] = int(rng.choice([0, 0, 1, 2, 50]))
+            # every entry gets a scripted criteria here: the shipped grand-canonical rule is only defined for counts >= 0
+            # (it divides by the count), and a scripted acceptance of a deletion at a recorded count of 0 leads below
+            for e_ in s["table"]:
+                if e_.get("criteria") in (None, "grand"):
+                    e_["criteria"] = workloads.pick(rng, workloads.SCHEDULES)
+            rec.count("simulations_with_initial_count_unrelated_to_the_labels")
         run_one(rec, s, spec["steps"], i)
     return rec.out()
